@@ -4,11 +4,12 @@
 use bytes::Bytes;
 
 use super::*;
+use crate::packet::{SubpacketLength, SignatureConfig};
 use crate::__verif_common::*;
 
 /// KeyFlags built through the setters (any subset of the 10 flags): write_len == octets written, and the
 /// written octets carry exactly the flags that were set
-vproof!(c05_keyflags_setters, 6, {
+vproof!(c05_keyflags_setters, 12, {
     let mut kf = KeyFlags::default();
     let f: [bool; 10] = kani::any();
     kf.set_certify(f[0]);
